@@ -415,6 +415,16 @@ def judge_shape(d):
             return out
         if tuple(lazy.shape) != tuple(real.shape):
             out.append(viol("C10/lazy-landscape-shape", f"{tag}: construct_landscape declares {tuple(lazy.shape)} but computing it yields {tuple(real.shape)}"))
+        # the same request with other model classes in the same process (the models differ in how wide a landscape they return)
+        for other in d.get("models_after", []):
+            if other == "FSC" and max(ms_px) > 2.0:
+                continue
+            lz = loader.construct_landscape(tmpl, max_shifts=ms, alignment_model=get_model(other), upsample=d["upsample"], **kw)
+            rl = lz.compute()
+            if tuple(lz.shape) != tuple(rl.shape):
+                out.append(viol("C10/lazy-landscape-shape:second-model", f"{tag}: after that, {other} declares {tuple(lz.shape)} for the same request but "
+                                f"computing it yields {tuple(rl.shape)}"))
+                break
         dk = loader.construct_dask(output_shape=shape)
         rr = dk.compute()
         if tuple(dk.shape) != tuple(rr.shape):
@@ -553,7 +563,8 @@ def shape_cases(draw):
     if d["model"] == "FSC":
         v0 = min(v0, 2.0)
     ms = [v0] * 3 if form == "scalar" else [min(draw(vals), 2.0 if d["model"] == "FSC" else 3.0) for _ in range(3)]
-    d.update({"max_shifts": ms, "ms_form": form, "upsample": draw(st.sampled_from([1, 2, 3])), "multi": draw(st.booleans())})
+    d.update({"max_shifts": ms, "ms_form": form, "upsample": draw(st.sampled_from([1, 1, 2, 3])), "multi": draw(st.booleans()),
+              "models_after": draw(st.lists(st.sampled_from(["ZNCC", "NCC", "PCC", "FSC"]), min_size=0, max_size=2))})
     return d
 
 
